@@ -439,6 +439,54 @@ type SpacedTags struct {
 	F []int   `json:" ,omitempty"`
 }
 
+// EmbTagIsOwnName: the tag spells exactly the embedded type's Go name. A name given by the tag is a name: the field is NOT
+// flattened (encoding/json emits {"ID":..,"Meta":{...},"Tail":..}); a tag with options only leaves it flattened.
+type Meta struct {
+	Rev  int    `json:"Rev"`
+	Note string `json:"note"`
+}
+
+type EmbTagIsOwnName struct {
+	ID   int
+	Meta `json:"Meta"`
+	Tail bool
+}
+
+type EmbTagIsOwnNamePtr struct {
+	ID    int
+	*Meta `json:"Meta,omitempty"`
+	Tail  bool
+}
+
+// HidOuter: a field of the outer struct has the GO NAME of a struct embedded one level down (HidHidden). In Go that hides the
+// embedded field itself, but not the fields it promotes, and encoding/json flattens it regardless: "X" is a member. The
+// embedded struct before it is tagged (not flattened).
+type HidTagged struct{ T int }
+
+type HidHidden struct{ X int }
+
+type HidInner struct {
+	HidTagged `json:"tagged"`
+	HidHidden
+}
+
+type HidOuter struct {
+	HidInner
+	HidHidden string `json:"h"`
+}
+
+type HidOuterDash struct {
+	*HidInnerDash
+	HidHidden bool `json:"hh,omitempty"`
+	Z         int
+}
+
+type HidInnerDash struct {
+	HidTagged `json:"-"`
+	HidHidden
+	W string
+}
+
 // CustomObj2's entry names other properties than its fields ("p" as a string, "extra"; no "hidden").
 type CustomObj2 struct {
 	P      int `json:"p"`
@@ -539,7 +587,7 @@ type BadDeep struct {
 
 // PlainData lists the types of C04's domain (C09 uses those without standard-library marshalers).
 var PlainData = []reflect.Type{
-	reflect.TypeFor[Scalars](), reflect.TypeFor[Tags](), reflect.TypeFor[SpacedTags](), reflect.TypeFor[[]SpacedTags](), reflect.TypeFor[Inner](), reflect.TypeFor[Pointers](), reflect.TypeFor[Containers](),
+	reflect.TypeFor[Scalars](), reflect.TypeFor[Tags](), reflect.TypeFor[SpacedTags](), reflect.TypeFor[[]SpacedTags](), reflect.TypeFor[EmbTagIsOwnName](), reflect.TypeFor[EmbTagIsOwnNamePtr](), reflect.TypeFor[HidOuter](), reflect.TypeFor[HidOuterDash](), reflect.TypeFor[[]HidOuter](), reflect.TypeFor[Inner](), reflect.TypeFor[Pointers](), reflect.TypeFor[Containers](),
 	reflect.TypeFor[NamedKinds](), reflect.TypeFor[EmbByValue](), reflect.TypeFor[EmbByPointer](), reflect.TypeFor[EmbNested](), reflect.TypeFor[EmbUnexportedType](),
 	reflect.TypeFor[EmbTwo](), reflect.TypeFor[EmbShadowSame](), reflect.TypeFor[EmbDeep](), reflect.TypeFor[PtrThenVal](), reflect.TypeFor[ValThenPtr](), reflect.TypeFor[[]PtrThenVal](),
 	reflect.TypeFor[OuterAfterMid](), reflect.TypeFor[OuterAfterMids](), reflect.TypeFor[[]OuterAfterMid](), reflect.TypeFor[TriAmbiguous](), reflect.TypeFor[TriDeepLater](), reflect.TypeFor[[]TriAmbiguous](),
